@@ -708,6 +708,34 @@ Theorem C09_setup_after_class_assign : forall g i c mro p n d,
          end.
 Proof. exact setup_after_class_assign. Qed.
 
+(* ---- subtable strings and owner names with structure ------------------- *)
+
+(* The key is plain string concatenation.  A non-empty subtable string S goes
+   in VERBATIM between the owner's table and the attribute name -- a leading
+   slash ("/pid" gives  <owner>//pid/A), a trailing one ("limits/" gives
+   <owner>/limits//A), "a//b", ".", "..", "cfg/../x" are not interpreted as a
+   path: nothing is dropped, collapsed or resolved.  (For names without "/"
+   C09_keys_disjoint above already covers ALL subtable strings.) *)
+Theorem C09_key_verbatim : forall p c S A, S <> "" ->
+  key_of p c (Some S) A = key_prefix p c ++ "/" ++ S ++ "/" ++ A.
+Proof. exact key_verbatim. Qed.
+
+(* for EVERY subtable string (or none) and attribute, names with ANY characters
+   (slashes, dots included): the same tunable bound under two names of the same
+   kind lives at two different topics *)
+Theorem C09_key_injective_in_name : forall p c1 c2 s a,
+  key_of p c1 s a = key_of p c2 s a -> c1 = c2.
+Proof. exact key_of_inj_name. Qed.
+
+Theorem C09_other_name_other_topic : forall p c1 c2 s a,
+  c1 <> c2 -> key_of p c1 s a <> key_of p c2 s a.
+Proof. exact key_of_other_name. Qed.
+
+(* ... and across components, autonomous modes and the robot *)
+Theorem C09_owner_key_injective : forall o1 o2 s a,
+  owner_key o1 s a = owner_key o2 s a -> o1 = o2.
+Proof. exact owner_key_inj. Qed.
+
 (* ---- non-vacuity ----------------------------------------------------- *)
 
 Definition ex_cls : list decl :=
@@ -1085,6 +1113,36 @@ Proof.
   intros b x [<-|[<-|[]]] Hx; simpl in Hx; intuition (subst; reflexivity).
 Qed.
 
+(* subtables with structure:  class Arm: gain = tunable(1.0, subtable="/pid");
+   top = tunable(10, subtable="limits/"); up = tunable(2, subtable="..")  on two
+   components and an autonomous mode (its name has a slash): every owner has
+   its OWN topics, at the concatenated keys; left.gain = 2.5 reaches only left;
+   nothing lives at the keys a path-join would produce *)
+Definition ex_arm : list decl :=
+  [ mkdecl "gain" (VScalar (SFloat 64)) None (Some "/pid") true;
+    mkdecl "top" (VScalar (SInt 10)) None (Some "limits/") true;
+    mkdecl "up" (VScalar (SInt 2)) None (Some "..") true ].
+Example C09_nv_structured_subtable :
+  key_of (Some "components") "left" (Some "/pid") "gain" = "/components/left//pid/gain" /\
+  key_of (Some "components") "left" (Some "limits/") "top" = "/components/left/limits//top" /\
+  owner_key (OAutonomous "Two/Steps") (Some "..") "up" = "/autonomous/Two/Steps/../up" /\
+  owner_key ORobot (Some "//") "x" = "/robot////x" /\
+  snd (run w0 [ Setup 0 ex_arm (Some "components") "left"; Setup 1 ex_arm (Some "components") "right";
+                Setup 2 ex_arm (Some "autonomous") "Two/Steps";
+                PyWrite 0 "gain" (VScalar (SFloat 160)); PyRead 0 "gain"; PyRead 1 "gain"; PyRead 2 "gain";
+                NtRead "/components/left//pid/gain"; NtRead "/components/right//pid/gain";
+                NtRead "/autonomous/Two/Steps//pid/gain"; NtRead "/pid/gain"; NtRead "/components/left/pid/gain";
+                NtRead "/components/right/limits//top"; NtRead "/components/right/limits/top";
+                NtRead "/components/left/../up"; NtRead "/components/up" ]) =
+  [ EvSetup true; EvSetup true; EvSetup true; EvWrote;
+    EvVal (VScalar (SFloat 160)); EvVal (VScalar (SFloat 64)); EvVal (VScalar (SFloat 64));
+    EvNt (Some (NDouble, VScalar (SFloat 160))); EvNt (Some (NDouble, VScalar (SFloat 64)));
+    EvNt (Some (NDouble, VScalar (SFloat 64))); EvNt None; EvNt None;
+    EvNt (Some (NInteger, VScalar (SInt 10))); EvNt None;
+    EvNt (Some (NInteger, VScalar (SInt 2))); EvNt None ] /\
+  "/pid" <> "" /\ "left" <> "right".
+Proof. vm_compute. repeat split; try reflexivity; discriminate. Qed.
+
 Print Assumptions C09_key.
 Print Assumptions C09_setup_binds_key.
 Print Assumptions C09_attr_write_reaches_topic.
@@ -1146,3 +1204,7 @@ Print Assumptions C09_class_assign_lookup.
 Print Assumptions C09_class_assign_changes_nothing_else.
 Print Assumptions C09_setup_binds_current_class.
 Print Assumptions C09_setup_after_class_assign.
+Print Assumptions C09_key_verbatim.
+Print Assumptions C09_key_injective_in_name.
+Print Assumptions C09_other_name_other_topic.
+Print Assumptions C09_owner_key_injective.
